@@ -755,13 +755,16 @@ func (view *View) Limit(ctx context.Context, scope *ReferenceScope, clause parse
 		percentage := number.(*value.Float).Raw()
 		value.Discard(number)
 
-		if 100 < percentage {
-			limit = 100
-		} else if percentage < 0 {
-			limit = 0
-		} else {
-			limit = int(math.Ceil(float64(view.RecordLen()+view.offset) * percentage / 100))
+		if math.IsNaN(percentage) {
+			return NewInvalidLimitPercentageError(clause)
 		}
+
+		if 100 < percentage {
+			percentage = 100
+		} else if percentage < 0 {
+			percentage = 0
+		}
+		limit = int(math.Ceil(float64(view.RecordLen()+view.offset) * percentage / 100))
 	} else {
 		number := value.ToInteger(val)
 		if value.IsNull(number) {
